@@ -15,6 +15,18 @@ import (
 
 const verifRoot = "/verif"
 
+// outRoot is where a run writes (work files, replays, evidence). It is
+// /verif, except when the check was pointed at a scratch copy of the
+// repository (VERIF_TAG set by ./check together with VERIF_REPO): then
+// everything goes under /verif/work/<tag>/ so that mutation testing never
+// overwrites the evidence of the real tree.
+func outRoot() string {
+	if t := os.Getenv("VERIF_TAG"); t != "" {
+		return filepath.Join(verifRoot, "work", t)
+	}
+	return verifRoot
+}
+
 func seedFromEnv() uint64 {
 	if s := os.Getenv("VERIF_SEED"); s != "" {
 		if v, err := strconv.ParseInt(s, 10, 64); err == nil {
@@ -65,6 +77,9 @@ func workerMain(args []string) int {
 	res := &ShardResult{Property: prop, Shard: shard, Of: of}
 	n := e.Count(tier)
 	maxViol := 8
+	if fp, ok := e.(FreshProcesser); ok && fp.FreshProcess("") {
+		maxViol = 2 // every shrink candidate costs a process
+	}
 	for i := shard; i < n; i += of {
 		sc := e.Gen(DeriveSeed(seed, prop, i), i, tier)
 		res.Scenarios++
@@ -87,15 +102,19 @@ func workerMain(args []string) int {
 			continue
 		}
 		orig := mustJSON(sc)
-		small, runs := shrink(e, sc, f.Class, 4000)
+		budget := 4000
+		if fp, ok := e.(FreshProcesser); ok && fp.FreshProcess(f.Class) {
+			budget = 80
+		}
+		small, runs := shrink(e, sc, f.Class, budget)
 		// Re-run the minimised scenario to get its own log and detail.
 		rctx := NewRunCtx()
 		rctx.Quiet = true
-		f2, im2 := runGuarded(e, small, rctx)
+		f2, im2 := evalCandidate(e, small, f.Class, rctx)
 		if im2 != "" || f2 == nil || f2.Class != f.Class {
 			// Shrinking must never lose the violation; fall back to the original.
 			small = sc
-			f2, _ = runGuarded(e, small, rctx)
+			f2, _ = evalCandidate(e, small, f.Class, rctx)
 			if f2 == nil {
 				res.Infra = append(res.Infra, fmt.Sprintf("scenario %d: violation %s did not reproduce in-process", i, f.Class))
 				continue
@@ -122,6 +141,7 @@ func workerMain(args []string) int {
 		}
 	}
 	res.WallS = time.Since(t0).Seconds()
+	removeRaceLog()
 	b, _ := json.Marshal(res)
 	if err := os.WriteFile(out, b, 0o644); err != nil {
 		fmt.Fprintln(os.Stderr, "cannot write", out, err)
@@ -189,10 +209,10 @@ func checkMain(args []string) int {
 			workers = v
 		}
 	}
-	work := filepath.Join(verifRoot, "work")
+	work := filepath.Join(outRoot(), "work")
 	os.MkdirAll(work, 0o755)
-	os.MkdirAll(filepath.Join(verifRoot, "replays"), 0o755)
-	os.MkdirAll(filepath.Join(verifRoot, "evidence"), 0o755)
+	os.MkdirAll(filepath.Join(outRoot(), "replays"), 0o755)
+	os.MkdirAll(filepath.Join(outRoot(), "evidence"), 0o755)
 	self, _ := os.Executable()
 	type proc struct {
 		cmd *exec.Cmd
@@ -313,7 +333,7 @@ func checkMain(args []string) int {
 		if seenClass[v.Class] > 3 {
 			continue // enough witnesses of this class
 		}
-		path := filepath.Join(verifRoot, "replays", fmt.Sprintf("%s-%d-%d.json", v.Property, v.Seed, v.Index))
+		path := filepath.Join(outRoot(), "replays", fmt.Sprintf("%s-%d-%d.json", v.Property, v.Seed, v.Index))
 		b, _ := json.MarshalIndent(v, "", " ")
 		os.WriteFile(path, b, 0o644)
 		fmt.Printf("VIOLATION property=%s replay=%s\n", v.Property, path)
@@ -331,7 +351,7 @@ func checkMain(args []string) int {
 
 func workerEnv(prop, tier string, shard int) []string {
 	if prop == "C08" || os.Getenv("VERIF_RACE") == "1" {
-		return []string{fmt.Sprintf("GORACE=log_path=%s/work/race.%s.%s.%d halt_on_error=0 history_size=2", verifRoot, prop, tier, shard)}
+		return []string{fmt.Sprintf("GORACE=log_path=%s/work/race.%s.%s.%d halt_on_error=0 history_size=2 atexit_sleep_ms=0 exitcode=0", outRoot(), prop, tier, shard)}
 	}
 	return nil
 }
@@ -365,7 +385,7 @@ func writeEvidence(e Engine, tier string, seed uint64, ctx *RunCtx, opcodes map[
 		"violations":  violations,
 	}
 	b, _ := json.MarshalIndent(ev, "", " ")
-	path := filepath.Join(verifRoot, "evidence", e.Property()+".json")
+	path := filepath.Join(outRoot(), "evidence", e.Property()+".json")
 	if err := os.WriteFile(path, b, 0o644); err != nil {
 		fmt.Fprintln(os.Stderr, "cannot write evidence:", err)
 	}
